@@ -47,7 +47,8 @@ BYTES = [b"a", b"", b"ab", b"caf\xc3\xa9", b"\xff", b"it's", b'q"', b"\xe2\x82\x
 # known findings
 # ---------------------------------------------------------------------------
 def k_pretty_set_root(case):
-    """pretty() names an item of a set that is not the root object as root[<item>]"""
+    """(finding fixed in 9738d10; kept for reference, not registered)
+    pretty() names an item of a set that is not the root object as root[<item>]"""
     return (case.get("clause") == "pretty statement does not name the path of the change"
             and case.get("report_type") in ("set_item_added", "set_item_removed")
             and case.get("set_path") not in (None, "root"))
@@ -66,7 +67,7 @@ def k_rep_chain(case):
             and set(case.get("problem_tags", ["?"])) <= {"t2-sub", "t2-noitem", "t2-eq-not-is", "t1-eq-not-is"})
 
 
-MATCHERS = {"C10-pretty-set-item-root": k_pretty_set_root, "C10-to_json-non-utf8-bytes": k_json_bytes,
+MATCHERS = {"C10-to_json-non-utf8-bytes": k_json_bytes,
             "C10-repetition-t2-index": k_rep_chain}
 
 
@@ -673,10 +674,10 @@ def replay_witnesses(ctx):
     """the Coq witnesses of the open findings must still fail on the implementation"""
     from deepdiff import DeepDiff
     open_keys = {f["key"] for f in ctx.findings if f.get("status") == "open"}
-    if "C10-pretty-set-item-root" in open_keys:
-        s = DeepDiff({"a": {1, 2}}, {"a": {1, 3}}).pretty()
-        if "root['a']" in s:
-            ctx.break_("correspondence", {"name": "C10-pretty-set-item-root witness", "detail": "C10_pretty_names_path_refuted's witness no longer fails on the implementation; model out of date", "impl": s})
+    # fixed finding C10-pretty-set-item-root: the Coq example must be what the implementation prints
+    s = DeepDiff({"a": {1, 2}}, {"a": {1, 3}}).pretty()
+    if "Item root['a'][3] added to set." not in s.split("\n"):
+        ctx.break_("correspondence", {"name": "C10_pretty_set_item_example", "detail": "the implementation no longer prints the statement of the Coq example", "impl": s})
     if "C10-to_json-non-utf8-bytes" in open_keys:
         try:
             s = DeepDiff([b"\xff"], [b"a"]).to_json()
